@@ -158,9 +158,16 @@ def run_mutants(modname, units, mutants, jobs=None):
                 pairs.append(u2)
     res_all = _run_pairs(modname, pairs, jobs)
     summary, broken = [], []
+    pid = modname.rsplit(".", 1)[-1].upper()
+    try:
+        known = load_known()
+    except Exception:
+        known = []
     for mi, m in enumerate(mutants):
         res = [r for r in res_all if r["unit"].startswith(f"{mi}::")]
-        failed = sorted({o["name"] for r in res for o in r["obls"] if o["status"] in ("failed", "failed-weak")})
+        # obligations that already fail on the unchanged tree as listed known findings do not count as a kill
+        failed = sorted({o["name"] for r in res for o in r["obls"] if o["status"] in ("failed", "failed-weak")
+                         and match_known(known, pid, r["unit"].split("::", 1)[1], o["name"]) is None})
         unknown = sorted({o["name"] for r in res for o in r["obls"] if o["status"] == "unknown"})
         errs = [f"{r['unit']}: {r.get('error')}" for r in res if r["status"] != "ok"]
         anchor_missing = any("mutation anchor not found" in (e or "") for e in errs)
